@@ -22,6 +22,7 @@ def sh(cmd, **kw):
 
 
 def main():
+    os.environ['VERIF_EVIDENCE_DIR'] = '/dev/shm/seed-eval-evidence'
     name, patch, demo, prop = sys.argv[1:5]
     checks = sys.argv[5:] or [prop]
     runs = os.environ.get('SEED_RUNS')
